@@ -3,67 +3,67 @@
 import json
 TX_NOTE = "Trusted: SimNet (stream-level model of one QUIC connection, semantics in DESIGN.md 2.4) instead of quic-go; the app shell around the engines is a stub (sender closes with code 0 on return, receiver exits without closing); the go/ast yield generator; testing/synctest; one fake clock for both nodes."
 checks = {
- "C09": dict(level="exploration", design="3/C09",
+ "C09": dict(level="exploration", design="4/C09",
    text="Tier T2: the real Prober.ProbeAndDial and real quic-go/TLS run over a simulated UDP network on the fake clock in which one listener is reachable through 1-4 candidate paths with their own up/down latencies (a third of the extra paths share the first path's round trip, split differently, so that handshakes finish together on the dialer), loss and blackholing; candidate lists carry duplicates, turn:-prefixed aliases and unroutable entries. Afterwards the real authenticateTransport (real TLS exporter) runs on both committed ends. Oracle: dialer and acceptor are on the same connection and authenticate; 5 s after ProbeAndDial returned every other connection the listener completed has been closed by the dialer; ProbeAndDial succeeds whenever a path is reachable. Two genuine defects are listed as known findings; a third was fixed.",
-   note="No scheduler is installed in this tier (quic-go is not instrumented): interleavings come from latencies and loss, and a replay reproduces the outcome, not a decision log; each reported violation is re-run in 5 fresh processes and its replay stability is printed. The accepting side is a transcription of runTransfer's acceptOnce (stub); STUN/TURN/NewProber do not run; the receiver's delayed dial-back is not modelled.",
+   note="In three quarters of the runs no scheduler is installed (quic-go is not instrumented): interleavings come from latencies and loss, and a replay reproduces the outcome, not a decision log; a quarter of the runs are driven by the seeded scheduler over the generated yield points of internal/ice and internal/app with quic-go running freely between two steps, and replay exactly; oracles that depend on a deadline being ample are judged only on loss-free paths with a round trip of at most 3 s; each reported violation is re-run in 5 fresh processes and its replay stability is printed. The accepting side is a transcription of runTransfer's acceptOnce (stub); STUN/TURN/NewProber do not run; the receiver's delayed dial-back is not modelled.",
    technique="deterministic simulation of real QUIC over a simulated datagram network with per-path latency/loss faults on a fake clock (testing/synctest)"),
- "C10": dict(level="exploration", design="3/C10",
+ "C10": dict(level="exploration", design="4/C10",
    text="The real thruserv main() (handlers, hub, session store, gorilla WebSocket, net/http) runs over simulated TCP; 1-3 sessions of scripted WebSocket clients join, reconnect with duplicate ids, stall, close or reset, and concurrently send addressed, broadcast, spoofed-from, foreign-session-id and malformed messages carrying unique tokens. The per-client receive logs are compared with a reference routing model with interval semantics: never a message from another session; from = the author's connect-time id; addressed messages only at the addressee, broadcasts never back at the author; no duplicates; per author-recipient order preserved; a message must be present at every recipient that had its peer_list before the send, kept reading to the end and has a unique id (author still connected); an unknown addressee is reported to the author and only to it.",
    note="net/http and gorilla are real but not instrumented; SimTCP replaces the kernel. must-deliver is deliberately narrow (see assumptions in the evidence): everything around joins, leaves and replaced connections is 'may'.",
    technique="deterministic simulation of the real server over simulated TCP with scripted clients; history check of receive logs against a reference routing model"),
- "C14": dict(level="exploration", design="3/C14",
+ "C14": dict(level="exploration", design="4/C14",
    text="The real thruserv main() runs as a node over simulated TCP on a fake clock. Scenarios per run: join-code lifetime probed 1 ms before and after expiry for lifetimes from 1 s to 24 h, and around the host's disconnect; uniqueness of join codes among 20-50 live sessions with the code random source reduced to 256 values; concurrent bursts of session creations, receivers of one host and WebSocket connections against limits 1-3 and against 0 (disabled: every request must pass); message sizes around --max-message-bytes and message bursts against the per-connection token bucket. Oracle: a code admits exactly while its session lives; limits are never exceeded also under the interleavings the scheduler produces; 0 means no limit.",
    note="net/http and gorilla/websocket are real but not instrumented (they run freely between two scheduler events); SimTCP replaces the kernel; crypto/rand.Reader is a seeded reader. 0 = unlimited is checked only for the flags documented that way (--max-sessions, --max-receivers-per-sender, --max-ws-connections).",
    technique="deterministic simulation: real server main over simulated TCP with fake clock, seeded schedules, concurrent request bursts"),
- "C16": dict(level="exploration", design="3/C16",
+ "C16": dict(level="exploration", design="4/C16",
    text="One server configuration per run is drawn from the grid {12 limit/timeout flags x (default, small, 0)} x TURN off / 1-2 TURN URLs in 8 spellings with secrets containing URL-significant characters, with peer ids containing URL-significant characters; the real clienthttp.CreateSession, buildWebSocketURL, wsclient.Dial and ReadLoop run for both roles against the real server main over simulated TCP, and the TURN credentials the server pushes are parsed with the client's parseTurnServer and compared with the user, secret and endpoint the configured secret and URL mean. No faults.",
    note="What the simulator adds here is running the real server and clients as nodes of one process over SimTCP with a per-run configuration and a fake clock for the timeouts; the TURN URL agreement itself is a pure function pair that rides along. net/http and gorilla are real but not instrumented.",
    technique="deterministic simulation of server and clients over simulated TCP, swarm over server configurations"),
- "C08": dict(level="fault_enumeration", design="3/C08",
+ "C08": dict(level="fault_enumeration", design="4/C08",
    text="The real authenticateTransport runs at the honest ends over simulated sessions whose exporter gives both ends of one session the same keying material and different sessions different material. Scenarios: honest pairs with equal / different / empty / prefix codes; every single-bit flip and every truncation of either 50-byte authentication message (the 900 alterations are walked systematically by run index); an attacker without the code relaying, replaying proofs captured from an earlier session, or reflecting between two sessions; rogue dialers and listeners that follow the protocol with a drawn code (the right one as positive control), replay, reflect, swap roles, send random proofs or stay silent; all under seeded segmentation and schedules. Oracle: an honest end accepts iff its peer is the other honest end of the same session holding the same code and the message it received is unaltered; every honest end returns within its 10 s timeout.",
    note="The TLS exporter is a stub (real exporter values and real QUIC sessions are not exercised by this check), HMAC-SHA256 is trusted. The clause 'no manifest or file byte before authentication' is NOT decided: runICEQUICTransfer, runTransfer and acceptExtraConns cannot run in the simulator, and in the harness the order is the harness's own.",
    technique="deterministic simulation with scripted attackers; enumeration of all single-bit and truncation alterations of the authentication messages"),
- "C12": dict(level="exploration", design="3/C12",
+ "C12": dict(level="exploration", design="4/C12",
    text="The real SnapshotSender admission code (handleEnvelope, handlePeerJoined, handleManifestAccept, handlePeerLeft, maybeStartTransfers, runTransfer, cleanup) is driven by seeded event scripts over 1-5 receivers (join, repeated accept, leave, rejoin, transfer success/failure, cleanup ticks, clock jump past the TTL) for max-receivers 1-3, with a simulated transfer function, under seeded schedules over the generated yield points. In half of the runs the event loop is starved so that every event meets a quiet sender and the queue and the set of running transfers are compared with a sequential reference admission model after every event; in the other half events overlap with the aftermath of earlier ones and interleaving-robust invariants are judged: never more than max-receivers live transfers, no receiver both queued and holding a slot or queued with a final status, no never-departed receiver started with a cancelled context, and in the final quiet state no idle slot while the queue is non-empty and active map = running transfers.",
    note="transferFn, the signaling connection and the event source are stubs; the bodies of the real transfer functions do not run here. The generated yield points and testing/synctest are trusted.",
    technique="deterministic simulation: seeded schedules over generated yield points, sequential reference model checked at quiescent points"),
- "C15": dict(level="exploration", design="3/C15",
+ "C15": dict(level="exploration", design="4/C15",
    text="A healthy small transfer is recorded in the simulator; its transcript is mutated (truncation, boundary values in length/count/index fields, wrong magic, unknown or swapped record types, duplicated/dropped/inserted ranges, absurd manifest/bitmap/chunk-size/frame lengths) and replayed by a scripted peer against the real receiver or the real sender with seeded segmentation and schedules; the script ends its input (FIN on every stream, optionally closing the connection). Oracle: no panic, no death of the process (each worker runs under a 3 GiB address-space limit; a fatal out-of-memory is attributed to the run in progress), the target returns within 15 simulated minutes of the end of input, Go TotalAlloc growth <= 64 x bytes received + 48 MiB, and a receiver that reports success after data-stream-only mutations holds the identical tree.",
    note="Mutation is plain seeded mutation of a recorded transcript; the simulator contributes end-of-input semantics, segmentation, the fake clock for hang detection and crash attribution. SimNet instead of quic-go. One genuine defect is listed as known finding (chunk buffers sized by the peer-announced chunk size).",
    technique="deterministic simulation with a scripted byzantine peer replaying mutated recordings; process-crash attribution via per-run breadcrumbs"),
- "C07": dict(level="exploration", design="3/C07",
+ "C07": dict(level="exploration", design="4/C07",
    text="The real RecvManifestMultiStream runs against a scripted hostile sender over the simulated network: framing is well-formed, but manifest.root, directory and file rel_path, item id or FileBegin.rel_path carry escape patterns (parent references, absolute paths into the sandbox, smuggled separators, NUL, backslashes, the metadata directory), in both root-dir modes, resume on and off, under seeded segmentation and schedules. The output directory sits in a per-run sandbox with decoys; oracle: the snapshot of everything outside the output directory is unchanged and no logged creating/writing/renaming/removing operation of the receiver resolves outside it.",
    note="Hostile strings are a fixed pool (ordinary seeded generation); the simulator contributes the peer, the sandbox accounting through the file-system interposition layer and the schedule. SimNet instead of quic-go; Unix path semantics only.",
    technique="deterministic simulation with a scripted byzantine peer; file-system interposition log and sandbox snapshot as oracle"),
- "C04": dict(level="fault_enumeration", design="3/C04",
+ "C04": dict(level="fault_enumeration", design="4/C04",
    text="Histories of 1-3 interrupted runs (receiver process killed at a crash point = any file-system or network operation of that process, optionally tearing the write in flight; sender killed; abrupt loss; close; cancel) followed by a healthy resumed run into the same directory, all under seeded schedules in the simulator. Oracle: the resumed run succeeds on both sides, the tree is identical to the source, and the first FileResumeInfo per file advertises at least the chunks marked in the sidecar found after the kill. Kill positions are drawn per history; the thorough tier additionally kills the receiver at every file-system crash point of selected schedules.",
    note=TX_NOTE + " Crash model: kill -9 of one process (memory lost, completed system calls durable, a write in flight may be torn, rename atomic); no power-loss reordering, since the code never syncs and the property speaks of killed processes.",
    technique="deterministic simulation with crash injection at enumerated crash points, crash images = the interposed scratch directory, then resumed run"),
- "C05": dict(level="fault_enumeration", design="3/C05",
+ "C05": dict(level="fault_enumeration", design="4/C05",
    text="Same interrupted runs as C04; the oracle is evaluated on every crash image before any recovery: every sidecar the repository's LoadSidecar accepts and whose identity matches a manifest file may mark only chunks whose bytes in the partially written output file equal the source, and every sidecar path must hold exactly the version installed by the last completed rename/write (atomic replacement). Schedules are biased to let the 1 s flusher tick fall between the steps of the data-stream readers.",
    note=TX_NOTE + " Crash model as for C04. Torn writes are cut at a drawn per-mille position of the write.",
    technique="deterministic simulation with crash injection; invariant over the crash image"),
- "C06": dict(level="exploration", design="3/C06",
+ "C06": dict(level="exploration", design="4/C06",
    text="Prior states are produced by real interrupted runs (as in C04) and then damaged: sidecar truncated at a drawn length, one bit flipped, garbage, a well-formed all-complete sidecar of another size / chunk size / id, .tmp leftover, data file deleted or shortened with the sidecar present, highest marked chunk torn. A healthy resumed run must end with an identical tree or with a failure on at least one side. Damage to chunks other than the highest marked one is not generated (the property promises detection only there).",
    note=TX_NOTE + " One genuine defect is listed as a known finding (repair chunk for a torn highest chunk is not applied); its signature names the mechanism, other outcomes of the same damage are still reported.",
    technique="deterministic simulation: histories of crashed runs plus storage-damage faults between runs, end-state oracle"),
- "C02": dict(level="fault_enumeration", design="3/C02",
+ "C02": dict(level="fault_enumeration", design="4/C02",
    text="Every run executes one seeded workload/configuration/schedule fault-free to learn its delivery sequence and then re-executes it with 1-2 injected faults (graceful close with code 0 by either side, abrupt loss, cancellation of sender or receiver, bit flip in chunk payload or checksum, source file shrunk or removed after the scan, obstructed output path, failing receiver file operation). Connection faults are anchored to delivery indices of that execution; the thorough tier additionally places a fault at every delivery index of selected executions. Oracle per side: error, or success with an identical complete tree (receiver) / with FileDone{ok} written by the receiver for every file (sender); both sides must have returned within the simulated bound. Fault kinds and positions are enumerated per schedule; schedules and workloads are sampled.",
    note=TX_NOTE + " Bit flips stand for corruption below the chunk CRC (QUIC authenticates packets). A fault takes effect at segment granularity, segments being cut at seeded positions down to single bytes.",
    technique="deterministic simulation with fault injection: seeded schedules, faults anchored to (thorough: enumerated over) the delivery sequence of a recorded execution"),
- "C03": dict(level="exploration", design="3/C03",
+ "C03": dict(level="exploration", design="4/C03",
    text="Seeded search, fault-free: the real SendManifestMultiStream and RecvManifestMultiStream run as two nodes over the simulated QUIC-stream network and the interposed file system in one synctest bubble; workload (tree shape, sizes around chunk boundaries, odd legal names, empty/zero-length cases), configuration (chunk size, 1-8 streams, 1-4 connections, resume per side, hash, root/scan mode, QUIC role, segment size, flow-control window) and schedule (random/weighted/PCT/FIFO, clock stalls, starved actors) are drawn per run. Oracle: both engines return nil before the simulated deadline; otherwise the run is classified as error or hang with the blocked sites. Sampling, not proof.",
    note=TX_NOTE,
    technique="deterministic simulation: seeded schedules over generated yield points, simulated network and clock, liveness as completion within a simulated-time bound"),
- "C01": dict(level="exploration", design="3/C01",
+ "C01": dict(level="exploration", design="4/C01",
    text="Same simulated runs as C03 (fault-free, all configurations and schedules); whenever both engines report success the output directory digest (paths, types, sizes, SHA-256) must equal the digest of the generated source tree, with nothing else present except the resume-metadata directory. Runs where a side fails are counted as outside this property. Sampling, not proof.",
    note=TX_NOTE + " Real QUIC (transferquic/quic-go) is not exercised by this check.",
    technique="deterministic simulation with seeded schedules; end-state digest comparison against the generated source tree"),
- "C17": dict(level="exploration", design="3/C17",
+ "C17": dict(level="exploration", design="4/C17",
    text="Same simulated runs as C03; every Write of the sender is recorded with the scheduler step at which it was issued and decoded with the repository's decoders; the history must contain exactly one FileBegin and one FileEnd per file, no chunk frame twice (except the verified chunk once more), FileEnd after the last chunk write of its file, nothing after FileEnd, and every needed chunk either written or advertised as present by the receiver. Sampling over schedules, not proof.",
    note=TX_NOTE + " The clause about chunks reported present below the verification point is judged only through 'needed chunk written or advertised' and 'no chunk twice'; the instant at which the report becomes known to the sender is internal and not observable on the wire.",
    technique="deterministic simulation; history check over the recorded, step-stamped wire trace"),
- "C11": dict(level="exploration", design="3/C11",
+ "C11": dict(level="exploration", design="4/C11",
    text="Seeded search over interleavings of the real peers.Hub (generated yield points before every lock, channel operation and goroutine start, fake clock) driven by 2-6 scripted actors; every run is checked for panics, simulator-detected deadlock, leaked routing state / writer goroutines, mis-routed deliveries, and its operation history is checked for linearizability against a sequential routing-table model with porcupine. Sampling, not proof: a clean batch is evidence.",
    note="Trusted: the go/ast yield generator, testing/synctest quiescence detection, porcupine; the callers are scripts, not the thruserv handlers (those run in C10). Assumes code between two yield points of one goroutine has no synchronisation besides unlock/atomics.",
    technique="deterministic simulation (seeded scheduler over generated yields in a synctest bubble) + porcupine linearizability check of the recorded history"),
